@@ -14,7 +14,7 @@ FLOORS = {"quick": (300, 15), "thorough": (2500, 25)}
 REQUIRED_COUNTERS = {"run_equivalence_pairs": 20}
 NSH = 16
 
-POS = {"line_start", "line_stop", "column_start", "column_stop"}
+POS = {"line_start", "line_stop", "column_start", "column_stop", "isLast", "_hr_sorted"}   # positions and parse-context flags
 
 
 def shards(tier, seed):
@@ -25,20 +25,45 @@ def shape(node):
     import dataclasses
     import enum
     if dataclasses.is_dataclass(node) and not isinstance(node, type):
-        return (type(node).__name__, tuple((f.name, shape(getattr(node, f.name))) for f in dataclasses.fields(node) if f.name not in POS))
+        vals = {f.name: getattr(node, f.name) for f in dataclasses.fields(node) if f.name not in POS}
+        if type(node).__name__ == "HROperation":
+            # an omitted mode and the documented default written out are the same statement
+            chk = vals.get("op") == "check_hierarchy"
+            for fld, dflt in (("validation_mode", "non_null"), ("input_mode", "dataset" if chk else "rule"), ("output", "invalid" if chk else "computed")):
+                if vals.get(fld) is None:
+                    vals[fld] = ("enum", dflt)
+        if type(node).__name__ == "DPValidation" and vals.get("output") is None:
+            vals["output"] = ("enum", "invalid")
+        return (type(node).__name__, tuple((k, shape(v)) for k, v in vals.items()))
     if isinstance(node, (list, tuple)):
         return tuple(shape(x) for x in node)
     if isinstance(node, dict):
         return tuple(sorted((repr(k), shape(v)) for k, v in node.items()))
     if isinstance(node, enum.Enum):
-        return ("enum", node.name)
+        return ("enum", node.value)
+    if isinstance(node, tuple) and len(node) == 2 and node[0] == "enum":
+        return node
     if isinstance(node, float):
         return ("num", float(node))
     if isinstance(node, int) and not isinstance(node, bool):
         return ("num", float(node)) if False else ("int", node)
     if node is None or isinstance(node, (str, bool)):
         return node
-    return ("obj", type(node).__name__, repr(node)[:80])
+    if isinstance(node, type):
+        return ("class", node.__name__)
+    if hasattr(node, "__dict__"):
+        return ("obj", type(node).__name__, tuple(sorted((k, shape(v)) for k, v in vars(node).items() if k not in POS and k != "data")))
+    return ("obj", type(node).__name__)
+
+
+def shape_unordered_rules(ast):
+    """shape of a script in which the rules of every hierarchical ruleset are taken as a multiset"""
+    import copy
+    a = copy.deepcopy(ast)
+    for ch in a.children:
+        if type(ch).__name__ == "HRuleset":
+            ch.rules = sorted(ch.rules, key=lambda r: repr(shape(r)))
+    return shape(a)
 
 
 def first_diff(a, b, path="ast"):
@@ -101,7 +126,10 @@ def check_script(script, source, emit, case, run_kw=None):
     else:
         d = first_diff(shape(a0), shape(a1))
         if d:
-            problems.append(("ast-differs", d))
+            kind = "ast-differs"
+            if "HRuleset" in d and "rules" in d and shape_unordered_rules(a0) == shape_unordered_rules(a1):
+                kind = "hruleset-rule-order-not-stable"
+            problems.append((kind, d))
     c0, c1 = comments_of(script), comments_of(p)
     if c0 != c1:
         missing = [c for c in c0 if c not in c1]
@@ -154,6 +182,12 @@ TEMPLATES = [
     "DS_r <- sum(DS_1 group by Id_1 having avg(Me_1) > {n});", "DS_r <- DS_1[aggr Me_2 := sum(Me_1) group by Id_1];",
     "define operator f (x number default {n}) returns number is x * {n2} end operator; sc_r <- f({n});",
     "define datapoint ruleset dpr (variable Me_1) is r1: when Me_1 > {n} then Me_1 < {n2} errorcode {s} errorlevel {n} end datapoint ruleset; DS_r <- check_datapoint(DS_1, dpr);",
+    "define hierarchical ruleset hr (variable rule Id_2) is A = B + C errorcode {s} errorlevel 1; D >= A - B end hierarchical ruleset; DS_r <- check_hierarchy(DS_1, hr rule Id_2 non_zero dataset_priority all);",
+    "define hierarchical ruleset hr (variable rule Id_2) is A = B + C end hierarchical ruleset; DS_r <- hierarchy(DS_1, hr rule Id_2 partial_null rule_priority all);",
+    "define hierarchical ruleset hr (variable rule Id_2) is A = B + C end hierarchical ruleset; DS_r <- check_hierarchy(DS_1, hr rule Id_2 non_null dataset invalid);",
+    "define hierarchical ruleset hr (variable rule Id_2) is A = B + C end hierarchical ruleset; DS_r <- hierarchy(DS_1, hr rule Id_2 always_zero);",
+    "define hierarchical ruleset hr (variable rule Id_2) is A = B + C end hierarchical ruleset; DS_r <- check_hierarchy(DS_1, hr rule Id_2 all_measures);",
+    "define datapoint ruleset dpr (variable Me_1) is Me_1 > {n} end datapoint ruleset; DS_r <- check_datapoint(DS_1, dpr all_measures);",
     "DS_r <- DS_1[calc Me_2 := Me_1 > {n} or not (Me_1 <= {n2}) xor true];", "DS_r <- DS_1[calc Me_2 := abs(-{n}) + ceil({n2}) + floor(-{n2})];",
     "DS_r <- check(DS_1 > {n} errorcode {s} errorlevel 2 imbalance DS_1 - {n2} invalid);",
 ]
@@ -182,7 +216,8 @@ def gen_script(rng):
     out = []
     for i, s in enumerate(parts):
         out.append(s.replace("DS_r <-", f"DS_r{i} <-").replace("sc_r <-", f"sc_r{i} <-").replace("operator f ", f"operator f{i} ").replace(" f(", f" f{i}(")
-                   .replace("ruleset dpr ", f"ruleset dpr{i} ").replace(", dpr)", f", dpr{i})"))
+                   .replace("ruleset dpr ", f"ruleset dpr{i} ").replace(", dpr)", f", dpr{i})").replace(", dpr ", f", dpr{i} ")
+                   .replace("ruleset hr ", f"ruleset hr{i} ").replace(", hr ", f", hr{i} "))
     return "\n".join(out)
 
 
